@@ -512,10 +512,10 @@ LAW(J_separation, RC, 10000, 400000, 120, "n not a power of two with the binary 
 // theta_k AND 1-theta_k come back (documented inverse formula, evaluated here in long double) with relative error <= 2d/(1-d).
 // d from the forward formulae (u = 2^-53, theta exact, fl(1-theta) one rounding):
 //   global ratio: at most n-1 factors fl(1-theta_j) and n-1 products                                  d <= 2n u     -> 2d <= 2n eps
-//   local ratio : alpha_k two roundings, running product, <= n-1 rescalings, the sum of n positive
-//                 terms (carrying the same) and the final division                                   d <= 9n u     -> 2d <= 9n eps
+//   local ratio : each ratio alpha_k two roundings, one per running product and per rescaling of it
+//                 (<= 4.5n u per term), the sum of n positive terms carrying the same, one division  d <= 9n u     -> 2d <= 9n eps
 //   binary      : at most ceil(log2 n) <= 6 factors, each possibly fl(1-theta)                        d <= 12 u     -> 2d <= 12 eps
-// asserted with the slack below (4n, 16n, 32 eps). Products only shrink (the local ratio is normalised by a sum >= 1), so a
+// asserted with the slack below (4n, 16n, 32 eps). Products only shrink (the local ratio is normalised by a sum not below its largest term), so a
 // probability is touched by underflow only when its own value is below DBL_MIN: a coordinate is judged only when the reference
 // value of both its branches is >= 1e-290 (the library legitimately returns 0 / subnormals below that, nothing is asserted there).
 namespace {
